@@ -433,7 +433,7 @@ pub fn gen_logical(rng: &mut Rng, class: SizeClass, internal: u8) -> Logical {
     } else {
         gen_ids(rng, n)
     };
-    let dup_mode = rng.below(5);
+    let dup_mode = rng.below(6);
     let pool_n = match (class, dup_mode) {
         (SizeClass::Spill, _) => ids.len(), // mostly unique contents (entropy in lengths)
         (_, 0) => ids.len().max(1),         // all unique
@@ -441,8 +441,25 @@ pub fn gen_logical(rng: &mut Rng, class: SizeClass, internal: u8) -> Logical {
         (_, 2) => 2,                        // A/B
         _ => (ids.len() / 3).max(1),
     };
-    let pool = content_pool(rng, pool_n.max(1), max_len, budget);
+    let mut pool = content_pool(rng, pool_n.max(1), max_len, budget);
+    let mut ids = ids;
+    if dup_mode == 5 && class != SizeClass::Spill && !ids.is_empty() {
+        // equal-length pool on a dense id block: runs, back-references and contents whose offsets
+        // are exact multiples of the common length apart (hard cases for offset elision / run merging)
+        let len = rng.usize(1, 40);
+        let k = rng.usize(3, 6);
+        pool = (0..k)
+            .map(|j| {
+                let mut c = rng.bytes(len);
+                c[0] = j as u8;
+                Rc::new(c)
+            })
+            .collect();
+        let start = if rng.chance(1, 2) { rng.below(1 << 20) } else { R::zoom_base(rng.range(2, 20) as u8) - 2 };
+        ids = (start..start + ids.len() as u64).collect();
+    }
     let mut tiles = BTreeMap::new();
+    let mut prev_pick = 0usize;
     for (i, id) in ids.iter().enumerate() {
         let c = if class == SizeClass::Spill {
             if rng.chance(1, 20) && i > 0 {
@@ -459,6 +476,12 @@ pub fn gen_logical(rng: &mut Rng, class: SizeClass, internal: u8) -> Logical {
                     // duplicates in runs
                     let k = (i / 3) % pool.len();
                     pool[k].clone()
+                }
+                5 => {
+                    if !rng.chance(1, 2) {
+                        prev_pick = rng.usize(0, pool.len() - 1);
+                    }
+                    pool[prev_pick].clone()
                 }
                 _ => pool[rng.usize(0, pool.len() - 1)].clone(),
             }
